@@ -1,10 +1,13 @@
 import Zc.Model.Cache
+import Zc.Model.Reentrant
 import Zc.Model.BrowserCb
 /-! Driver command `crun` shared by C05, C06 and C04: one line = one whole history.
 
 ```
 crun P <nNames> name* <nRecs> rec* <nTriples> (name type class)* OPS <nOps> op*
-op := D now <n> rec* <nreact> (phase lid kind target)*      -- response datagram; kind 1 = add listener, 0 = remove
+op := D now <n> rec* <nreact> (code lid kind target [t qname qtype qclass])*
+                                                            -- response datagram + scripted reactions; code = 10*depth + phase;
+                                                            -- kind 1 = add listener, 0 = remove, 2 = add WITH a question (clock reading t)
     | X now                                                 -- periodic purge (_async_cache_cleanup)
     | LA id | LR id                                         -- add / remove a recording listener
     | BA id now <n> type*                                   -- new browser (purge, then initial replay, both at `now`)
@@ -44,10 +47,10 @@ def readersStr (p : Probes) (c : Cache) : String :=
   s!"N={n} E={e} S={s} G={g} U={u} D={d} A={a} AE={ae} AS={as} AA={aa}"
 
 structure React where
-  phase : Nat
+  /-- 10 * depth + phase -/
+  code : Nat
   lid : Nat
-  add : Bool
-  target : Nat
+  act : CbAct
 
 inductive Op where
   | dg (now : Ms) (recs : List Rec) (reacts : List React)
@@ -57,8 +60,14 @@ inductive Op where
   | bRem (id : Nat)
 
 def parseReact : Tok React := do
-  let phase ← Tok.nat; let lid ← Tok.nat; let add ← Tok.bool; let target ← Tok.nat
-  pure { phase, lid, add, target }
+  let code ← Tok.nat; let lid ← Tok.nat; let kind ← Tok.nat; let target ← Tok.nat
+  match kind with
+  | 0 => pure { code, lid, act := .remove target }
+  | 1 => pure { code, lid, act := .add target }
+  | 2 => do
+    let t ← Tok.int; let name ← Tok.str; let type ← Tok.nat; let class_ ← Tok.nat
+    pure { code, lid, act := .addQ target t [{ name, type, class_, unique := false }] }
+  | _ => failure
 
 def parseOp : Tok Op := do
   let k ← Tok.next
@@ -93,9 +102,9 @@ structure Host where
 def setAdd (l : List Nat) (x : Nat) : List Nat := if l.contains x then l else l ++ [x]
 def setRem (l : List Nat) (x : Nat) : List Nat := l.filter (fun y => y != x)
 
-/-- listeners are called on a copy of the set; the reactions of the called listeners mutate the set -/
-def reactFn (phase : Nat) (reacts : List React) (l : Nat) : List ListenerAct :=
-  (reacts.filter (fun r => r.phase = phase && r.lid = l)).map (fun r => if r.add then ListenerAct.add r.target else ListenerAct.remove r.target)
+/-- the scripted reactions of listener `l`'s callback of `phase` entered at nesting depth `depth` -/
+def reactFn (reacts : List React) (depth phase l : Nat) : List CbAct :=
+  (reacts.filter (fun r => r.code = 10 * depth + phase && r.lid = l)).map (fun r => r.act)
 
 def idsStr (l : List Nat) : String := sep "," ((l.mergeSort (fun a b => a ≤ b)).map toString)
 
@@ -117,29 +126,47 @@ def browsersUpdate (h : Host) (c1 : Cache) (now : Ms) (us : List (Rec × Option 
 def browsersComplete (bs : List (Nat × Browser)) : List (Nat × Browser) × List (Nat × Callback) :=
   (bs.map (fun ib => (ib.1, (Browser.complete ib.2).1)), bs.flatMap (fun ib => (Browser.complete ib.2).2.map (fun cb => (ib.1, cb))))
 
+/-- what happened below depth 0, in execution order (mirror of `cachecommon.render_nest`) -/
+def nestStr (log : List NestEv) : String :=
+  sep ";" (log.filterMap (fun ev =>
+    match ev with
+    | .addq depth lid target t => some s!"Q{depth}:{lid}>{target}@{t}"
+    | .purge depth _ recs => some s!"P{depth}[{recsStr recs}]"
+    | .call depth phase lid replay =>
+      if depth = 0 then none
+      else if phase = 1 then (if replay.isEmpty then some s!"u{depth}:{lid}" else some s!"R{depth}:{lid}[{recsStr replay}]")
+      else some s!"c{depth}:{lid}"))
+
 def step (p : Probes) (h : Host) (op : Op) : Host × String :=
   let l := asciiLower
   match op with
   | .dg now recs reacts =>
     -- the harness's listeners hash to their id, so the set iterates in ascending id order
-    match deliver l (fun ls => ls.mergeSort (fun a b => a ≤ b)) h.cache h.listeners now recs (reactFn 1 reacts) (reactFn 2 reacts) with
-    | .error e => (h, s!"D err={e.name}")
-    | .ok d =>
-      let out := d.out
-      match out.call1, out.call2 with
-      | some (us, c1), some c2 =>
-        match d.err with
-        | some e =>
-          -- a callback raised: the datagram is abandoned where it was (browsers are not part of these histories)
-          ({ h with cache := d.cache, listeners := d.listeners },
-            s!"D err={e.name} u={pairsStr us} c1={idsStr d.round1} s1={snapStr c1} c2={idsStr d.round2} s2={if d.round2.isEmpty then "!" else snapStr c2} {readersStr p d.cache}")
-        | none =>
-          let bs := browsersUpdate h c1 now us
-          let (bs', cbs) := browsersComplete bs
-          ({ cache := out.cache, listeners := d.listeners, browsers := bs' },
-            s!"D u={pairsStr us} c1={idsStr d.round1} s1={snapStr c1} c2={idsStr d.round2} s2={snapStr c2} n={if out.notify then 1 else 0} cb={cbStr cbs} {readersStr p out.cache}")
-      | _, _ =>
-        ({ h with cache := out.cache }, s!"D u=~ c1=~ s1=~ c2=~ s2=~ n={if out.notify then 1 else 0} cb=~ {readersStr p out.cache}")
+    let d := deliverR l (fun ls => ls.mergeSort (fun a b => a ≤ b)) (reactFn reacts) 8 h.cache h.listeners now recs
+    let nest := nestStr ((d.r1.map (fun r => r.1.log)).getD [] ++ (d.r2.map (fun r => r.1.log)).getD [])
+    let round1 := (d.r1.map (fun r => r.2.map Prod.fst)).getD []
+    let round2 := (d.r2.map (fun r => r.2.map Prod.fst)).getD []
+    let notify := (d.fin.map (fun f => f.2)).getD false
+    match d.r1 with
+    | some _ =>
+      let c1 := d.pre.cache
+      let us := livePairs (Cache.ops l) c1 d.pre.updates
+      match d.err with
+      | some e =>
+        -- an exception propagated: the datagram is abandoned where it was (browsers are not part of these histories)
+        ({ h with cache := d.cache, listeners := d.listeners },
+          s!"D err={e.name} u={pairsStr us} c1={idsStr round1} s1={snapStr c1} c2={idsStr round2} s2={match d.fin with | some f => snapStr f.1 | none => "!"} nest={nest} ls={idsStr d.listeners} {readersStr p d.cache}")
+      | none =>
+        let bs := browsersUpdate h c1 now us
+        let (bs', cbs) := browsersComplete bs
+        let c2 := (d.fin.map (fun f => f.1)).getD d.cache
+        ({ cache := d.cache, listeners := d.listeners, browsers := bs' },
+          s!"D u={pairsStr us} c1={idsStr round1} s1={snapStr c1} c2={idsStr round2} s2={snapStr c2} nest={nest} ls={idsStr d.listeners} n={if notify then 1 else 0} cb={cbStr cbs} {readersStr p d.cache}")
+    | none =>
+      match d.err with
+      | some e => (h, s!"D err={e.name}")
+      | none =>
+        ({ h with cache := d.cache }, s!"D u=~ c1=~ s1=~ c2=~ s2=~ nest=~ ls={idsStr d.listeners} n={if notify then 1 else 0} cb=~ {readersStr p d.cache}")
   | .purge now =>
     match deliverPurge l (fun ls => ls.mergeSort (fun a b => a ≤ b)) h.cache h.listeners now (fun _ => []) (fun _ => []) with
     | .error e => (h, s!"X err={e.name}")
